@@ -106,6 +106,60 @@ const GENERATORS: &[&str] = &[
     "{ name: \"dense\", column_span: 7 }",
 ];
 
+/// literal spellings and layouts that exercise the conversion and writer corner cases: valid and
+/// malformed escapes in every string form, multi-byte characters at token boundaries, long
+/// brackets whose content defeats a naive level choice, numbers in every notation
+fn corpus() -> Vec<String> {
+    let mut v: Vec<String> = [
+        "return [[\u{e9}]]", "return [==[\u{2192} next]==]", "print [[\u{20ac} 10]]", "return [[\n\u{65e5}\u{672c}]]",
+        "return '\u{e9}\u{1F600}'", "return \"\\u{D800}\"", "return \"\\u{110000}\"", "return \"\\xZZ\"", "return \"\\400\"",
+        "return `\\xZZ`", "return `\\u{D800}`", "return `a{1}\\u{41}`", "return `\\{{x}\\}`", "return `{`{1}`}`", "return `\\z  b`",
+        "return '\\z   x'", "return 'a\\\nb'", "return \"a\\\r\nb\"", "return '\\q'", "return '\\'", "return [=[ ]] ]=]",
+        "return 0x", "return 0b2", "return 1e", "return 1__0", "return 0x1p4", "return 1..2", "return 3.", "return .5e-3",
+        "return 0xffffffffffffffffff", "return 1e999", "local a <const> = 1", "return a::b", "x = y::", "return #", "f(\"\")\"",
+        "return function(...: number): ...string end", "type T = typeof(`{1}`)", "return ({})[1] :: any",
+        "goto x", "::x::", "return --[==[ c ]==] 1", "--[[ unterminated", "return [[ unterminated", "return 'unterminated",
+        "return `unterminated {", "return `{`", "return }", "return )", "end", "local function", "for i = 1 do end",
+    ]
+    .iter()
+    .map(|s| s.replace("\\n", "\n"))
+    .collect();
+    // long-bracket candidates: >= 60 printable bytes, inner closers of the lower levels, ending in a half closer
+    for k in 0..4usize {
+        for j in 0..4usize {
+            let mut text = "x".repeat(30);
+            for level in 0..k {
+                text.push(']');
+                text.push_str(&"=".repeat(level));
+                text.push(']');
+                text.push_str("yyyyyyyyyy");
+            }
+            text.push_str(&"z".repeat(30));
+            text.push(']');
+            text.push_str(&"=".repeat(j));
+            v.push(format!("local s = \"{}\" return s, #s", text));
+        }
+    }
+    v
+}
+
+/// line comments at the end of random lines and on lines of their own (rules and generators must
+/// cope with trivia everywhere)
+fn commentify(source: &str, rng: &mut Rng) -> String {
+    let mut out = String::new();
+    for line in source.lines() {
+        if rng.chance(1, 5) {
+            out.push_str("-- note\n");
+        }
+        out.push_str(line);
+        if rng.chance(1, 3) && !line.contains("[[") && !line.contains('`') {
+            out.push_str(*rng.pick(&[" -- c", " --[[b]]", " -- trailing ]] x", " --- doc"]));
+        }
+        out.push('\n');
+    }
+    out
+}
+
 fn process_guarded(source: String, config_text: String) -> Outcome<Result<String, String>> {
     guarded(move || {
         let config: Configuration = json5::from_str(&config_text).map_err(|e| format!("config: {}", e))?;
@@ -158,6 +212,34 @@ fn main() {
         }
     };
 
+    // 0. the corpus: parse each snippet, and push the ones that parse through every generator
+    for snippet in corpus() {
+        if hung {
+            break;
+        }
+        if check_parse(snippet.as_bytes(), "corpus", &mut hung) {
+            for generator in GENERATORS {
+                for rules in ["", "\"remove_spaces\"", "\"compute_expression\", \"remove_unused_variable\""] {
+                    let config = format!("{{ generator: {}, rules: [{}] }}", generator, rules);
+                    process_runs += 1;
+                    match process_guarded(snippet.clone(), config.clone()) {
+                        Outcome::Done(Ok(output)) => {
+                            if !check_parse(output.as_bytes(), "darklua-output", &mut hung) {
+                                report("OUTPUT-UNPARSABLE", &output, &config, snippet.as_bytes());
+                            }
+                        }
+                        Outcome::Done(Err(_)) => rule_errors += 1,
+                        Outcome::Panic(msg) => report("PROCESS-PANIC", &msg, &config, snippet.as_bytes()),
+                        Outcome::Hang => {
+                            report("PROCESS-HANG", "no result within the time limit", &config, snippet.as_bytes());
+                            hung = true;
+                        }
+                    }
+                }
+            }
+        }
+    }
+
     for case in 0..n {
         if hung {
             break;
@@ -177,7 +259,10 @@ fn main() {
         features.refactor = rng.chance(1, 2);
         features.removal = rng.chance(1, 2);
         features.meta = rng.chance(1, 3);
-        let source = Gen::new(&mut rng, features).program(5);
+        let mut source = Gen::new(&mut rng, features).program(5);
+        if rng.chance(1, 2) {
+            source = commentify(&source, &mut rng);
+        }
         let valid = check_parse(source.as_bytes(), "generated-program", &mut hung);
         if !valid {
             report("GENERATOR-INVALID", "generated program does not parse", "-", source.as_bytes());
@@ -218,6 +303,32 @@ fn main() {
                     break;
                 }
                 check_parse(&b[..cut], "truncated-program", &mut hung);
+            }
+        }
+
+        // 3b. ordered pairs of rules where one of them edits trivia, token-preserving generator
+        if case % 8 == 0 {
+            let trivia_rules = ["\"remove_spaces\"", "\"remove_comments\"", "{ rule: \"append_text_comment\", text: \"hello\" }"];
+            for t in trivia_rules {
+                for other in RULES {
+                    for (first, second) in [(t, *other), (*other, t)] {
+                        let config = format!("{{ generator: \"retain_lines\", rules: [{}, {}] }}", first, second);
+                        process_runs += 1;
+                        match process_guarded(source.clone(), config.clone()) {
+                            Outcome::Done(Ok(output)) => {
+                                if !check_parse(output.as_bytes(), "darklua-output", &mut hung) {
+                                    report("OUTPUT-UNPARSABLE", &output, &config, source.as_bytes());
+                                }
+                            }
+                            Outcome::Done(Err(_)) => rule_errors += 1,
+                            Outcome::Panic(msg) => report("PROCESS-PANIC", &msg, &config, source.as_bytes()),
+                            Outcome::Hang => {
+                                report("PROCESS-HANG", "no result within the time limit", &config, source.as_bytes());
+                                hung = true;
+                            }
+                        }
+                    }
+                }
             }
         }
 
